@@ -3,7 +3,7 @@
 Require Import AT.Model.Base AT.Model.Rose AT.Model.Iter AT.Model.Search.
 Require Import AT.Spec.IterSpec AT.Spec.SearchSpec.
 Require AT.Proofs.IterPre AT.Proofs.SearchProofs.
-Open Scope Z_scope.
+Local Open Scope Z_scope.
 
 (** findall returns exactly what PreOrderIter yields ... *)
 Theorem C14_findall_is_preorder : forall f stop ml t,
